@@ -85,6 +85,9 @@ LawWrongMsgOnlyFillsI == Both(LawWrongMsgOnlyFills)
 LawMonotoneI == Both(LawMonotone)
 LawDuplicateI == Both(LawDuplicate)
 LawSingleI == Both(LawSingle)
+LawBoundedI == Both(LawBounded)
+LawFullCreditHitI == Both(LawFullCreditHit)
+LawCreditMonotoneI == IsCase => LawCreditMonotone(A, NoMsg)
 LawNotationI == IsCase /\ c.n <= 2 => LawNotation(A, NoMsg)
 LawCodeRefinesI == Both(LawCodeRefines)
 LawCodeCallsI == Both(LawCodeCalls)
